@@ -833,7 +833,8 @@ def r6k_declared_names_are_parameters(ctx):
                 continue
             n += 1
             calls = _slice_calls(crate, f, c["args"][1])
-            foreign = sorted(x.split("::")[-1] for x in calls if x in crate.fns and "ArgWithDefault" not in (crate.fns[x].ret or ""))
+            foreign = sorted(x.split("::")[-1] for x in calls if x in crate.fns and "ArgWithDefault" not in (crate.fns[x].ret or "")
+                             and not pure_destructurer(crate, crate.fns[x]))
             key = "R6k|%s|declared name computed by %s" % (f.root, ",".join(foreign))
             if foreign:
                 r.violate(key, "%s adds to the declared names a value computed by %s (at %s): not a parameter of the function" % (
@@ -854,3 +855,16 @@ def _set_root(f, op, depth=0):
         if d[0] == "assign" and d[3][0] == "use" and op_local(d[3][1]) is not None and not place_projs(op_place(d[3][1])):
             return _set_root(f, d[3][1], depth + 1)
     return l
+
+
+def pure_destructurer(crate, g):
+    """a function that only takes a value apart: no closures, no loops, no call of another function of this crate (a constructor
+    such as `FunctionParts::from_stmt(&Stmt) -> Option<Self>` that borrows the fields of one AST node)"""
+    from .r1e import natural_loops
+    if g.kind not in ("fn", "method"):
+        return False
+    if any(x.root == g.id and x.id != g.id for x in crate.real_fns()):
+        return False
+    if natural_loops(g):
+        return False
+    return not any(c.get("res_local") for _b, c in g.calls())
